@@ -58,6 +58,32 @@ theorem matchLookahead_relF (c : Ctx) (n k : Nat) (fn : Nat → Nat → Bool) (g
       (fun y hy => ⟨(hgl y (List.mem_of_mem_drop hy)).2.1, (hgl y (List.mem_of_mem_drop hy)).maskOn⟩)]
   cases predMatchG none (fnPreds fn 0 n) (gs.drop (c.buf.outLen + k + 1)) <;> simp
 
+/-- the same with the end index on success (`k ≤ |R|`: the matched input lies inside the buffer) -/
+theorem matchLookahead_relF' (c : Ctx) (n k : Nat) (fn : Nat → Nat → Bool) (gs : List G) (x : Info) (R : List Info)
+    (hinv : Inv c.buf) (hin : inP c.buf = x :: R) (hrel : RelF (outP c.buf ++ inP c.buf) gs)
+    (hgl : ∀ y ∈ R, CtxG y) (hp : NoSkipFlags c.lookupProps) (hps : c.perSyllable = false) (hk : k ≤ R.length) :
+    ∃ r, matchLookahead c n fn (c.buf.idx + k + 1) = .ok r ∧
+      r.1 = (matchSeq gs (visibleFrom c.font c.lookupProps gs (c.buf.outLen + k + 1)) (fnPreds fn 0 n)).isSome ∧
+      (r.1 = true → r.2 = c.buf.idx + k + 1 + n ∧ k + n ≤ R.length) ∧ c.buf.idx + k + 1 ≤ r.2 := by
+  obtain ⟨hcur, hx, hRw⟩ := window_cons c.buf.info c.buf.idx c.buf.len x R hin
+  have hRk : (c.buf.info.drop (c.buf.idx + k + 1)).take (c.buf.len - (c.buf.idx + k + 1)) = R.drop k := by
+    rw [← hRw, List.drop_take, List.drop_drop]
+    congr 1
+    · omega
+    · congr 1; omega
+  obtain ⟨r, hrun, hok, hend, hlo, _⟩ := matchLookahead_fn c n fn (c.buf.idx + k + 1) (R.drop k) hinv.len_le (by omega) hRk
+    (fun y hy => (hgl y (List.mem_of_mem_drop hy)).notDI) hp hps
+  refine ⟨r, hrun, ?_, ?_, hlo⟩
+  · rw [hok, matchSeq_after c.font c.lookupProps hp gs _ _ _,
+      fnMatch_relF_ctx fn n 0 (R.drop k) _ (relF_dropR hinv hin hrel k)
+        (fun y hy => ⟨(hgl y (List.mem_of_mem_drop hy)).2.1, (hgl y (List.mem_of_mem_drop hy)).maskOn⟩)]
+    cases predMatchG none (fnPreds fn 0 n) (gs.drop (c.buf.outLen + k + 1)) <;> simp
+  · intro h
+    refine ⟨hend h, ?_⟩
+    have := fnMatch_length U32MAX fn n 0 (R.drop k) (by rw [← hok]; exact h)
+    simp at this
+    omega
+
 /-- `match_backtrack` reads the OUT buffer: `matchSeq` on the visible positions before `out_len`, nearest first -/
 theorem matchBacktrack_relF (c : Ctx) (n : Nat) (fn : Nat → Nat → Bool) (gs : List G)
     (hinv : Inv c.buf) (hrel : RelF (outP c.buf ++ inP c.buf) gs)
